@@ -8,6 +8,11 @@
                              the history is the serialisation
                     "par"  — the operations of client 0 are issued first (sequentially), then clients 1.. run
                              concurrently; only interleaving-independent facts are printed (see `Mode`)
+                    "race" — second field: the allowed logs of observer 1 ("v,v,…" joined by ";").  Client 0's
+                             operations first (sequentially), then rounds separated by "B": in a round every
+                             client issues one state-dependent Update, all released together, and the harness
+                             holds each evaluation at a gate until all evaluations of the round have started or
+                             30 ms have passed (evaluations that can overlap do overlap)
     operations      "<client> U <src>"                     Update(src)
                     "<client> O <script> <mode> <src>"     Observe(src, …); script: one letter per invocation of
                                                            onupdate (o = nil, e = error, p = panic, r = call own cancel), "-" = empty
@@ -20,16 +25,17 @@
     L  the log: v<canon> per onupdate, c = onclose(nil), e = onclose(error), s = onclose(nil) during Stop
     F  n=<number of values>,last=<last value>,wf=<log is values then at most one close; values strictly increasing>,end=<c|e|s|->
     N  n=…,wf=…,end=…      E  wf=…,end=…
+    C  chain=ok if the values of the log are one of the allowed logs, else chain=<values>; then ,end=…
 -/
 import Arrai.C17.Model
 
 namespace Arrai.C17
 
-inductive Mode | L | F | N | E
+inductive Mode | L | F | N | E | C
   deriving DecidableEq, Repr, Inhabited
 
 def Mode.name : Mode → String
-  | .L => "L" | .F => "F" | .N => "N" | .E => "E"
+  | .L => "L" | .F => "F" | .N => "N" | .E => "E" | .C => "C"
 
 inductive Op
   | upd (client : Nat) (e : CExpr)
@@ -94,6 +100,7 @@ def renderLog (m : Mode) (log atStop : List (Ev St)) : String :=
   | .F => s!"n={vals.length},last={last},wf={wf},end={endk}"
   | .N => s!"n={vals.length},wf={wf},end={endk}"
   | .E => s!"wf={wf},end={endk}"
+  | .C => "chain=" ++ ",".intercalate (vals.map St.canon) ++ s!",end={endk}"
 
 /-- observers of a payload, by ordinal: (ordinal, mode) -/
 def observers (ops : List Op) : List (Nat × Mode) :=
@@ -205,7 +212,7 @@ def wedges (serial : List Op) : Bool := (simWith Prev.step serial).aborted
 def kfReenter : String := "KF-engine-reentrant-cancel"
 
 def mkSeq (id stratum : String) (ops : List Op) : Case :=
-  { id := id, cls := if wedges ops then kfReenter else "good", kind := "engine", stratum := stratum,
+  { id := id, cls := "good", kind := "engine", stratum := stratum,
     model := renderImpl false 0 ops ops, spec := renderSpec false 0 ops ops,
     payload := "seq" :: ops.map Op.text }
 
@@ -227,6 +234,66 @@ def mkPar (id stratum : String) (pre : List Op) (clients : List (List Op)) : Cas
     -- printed facts are interleaving-independent for this case (M≠S would be reported by ./check).
     model := renderImpl true n payloadOps alt, spec := renderSpec true n payloadOps payloadOps,
     payload := "par" :: payloadOps.map Op.text }
+
+/-! ## "race": state-dependent updates issued at the same moment
+
+By `interleaving_is_history`, `history_is_merge_of_clients` and `clients_in_program_order` (Proofs/C17.lean,
+part 7) whatever the schedule does, the engine's behaviour is `Impl.run` of a merge of the clients' call
+sequences.  The harness makes a round's calls only after all calls of the previous round have returned
+(hence been accepted), so the possible histories are exactly: client 0's prefix, then some permutation of
+round 1, then some permutation of round 2, …  The model runs all of them; observer 1 (`$`, subscribed
+in the prefix, never failing) must have heard the installed states of one of them, in order.  A lost
+update, a stale read or a reordered notification gives a log outside that set. -/
+
+def insertAll {α : Type} (x : α) : List α → List (List α)
+  | [] => [[x]]
+  | y :: r => (x :: y :: r) :: (insertAll x r).map (y :: ·)
+
+def perms {α : Type} : List α → List (List α)
+  | [] => [[]]
+  | x :: r => (perms r).flatMap (insertAll x)
+
+/-- all concatenations of one permutation per round -/
+def orders {α : Type} : List (List α) → List (List α)
+  | [] => [[]]
+  | rd :: rest => (perms rd).flatMap (fun p => (orders rest).map (p ++ ·))
+
+/-- what observer 1 hears (values only) when the loop accepts `serial` and is then stopped -/
+def chainOf (serial : List Op) : String :=
+  let r := simImpl serial
+  let fin := Impl.stop r.st []
+  ",".intercalate ((valsOf (Impl.log fin (idOf r.ids 1))).map St.canon)
+
+def mkRace (id stratum : String) (pre : List Op) (rounds : List (List Op)) : Case :=
+  let allowed := dedupAdj (sortStrs ((orders rounds).map (fun o => chainOf (pre ++ o))))
+  let serial := pre ++ rounds.flatten
+  let n := (rounds.map List.length).foldl max 0
+  let obs (chars : List (Nat × String)) (chain : String) : String :=
+    renderReplies true n chars ++ "|1:chain=" ++ (if allowed.contains chain then "ok" else chain) ++ ",end=s"
+  { id := id, cls := "good", kind := "engine", stratum := stratum,
+    model := obs (simImpl serial).chars (chainOf serial),
+    -- spec: every call returns, every update (they cannot fail) is acknowledged, the log is an allowed one
+    spec := obs (simSpec serial).chars (allowed.headD ""),
+    payload := "race" :: ";".intercalate allowed :: (pre.map Op.text ++ (rounds.map (fun rd => "B" :: rd.map Op.text)).flatten) }
+
+def genRaceExpr : Gen CExpr := do
+  let r ← rand 100
+  if r < 50 then pure (.plus ((← rand 3) + 1))
+  else if r < 85 then pure .dbl
+  else pure (.lit (← rand 10))
+
+/-- 2–4 clients, 2–4 rounds, at most 576 possible orders -/
+def genRace : Gen (List Op × List (List Op)) := do
+  let nClients := (← rand 3) + 2
+  let nRounds ← if nClients == 4 then pure 2 else if nClients == 3 then pure ((← rand 2) + 2) else pure ((← rand 3) + 2)
+  let pre : List Op := [.upd 0 (.lit ((← rand 5) + 1)), .obs 0 1 .cur [] .C]
+  let mut rounds : List (List Op) := []
+  for _ in [0:nRounds] do
+    let mut rd : List Op := []
+    for c in [0:nClients] do
+      rd := rd ++ [.upd (c + 1) (← genRaceExpr)]
+    rounds := rounds ++ [rd]
+  pure (pre, rounds)
 
 /-! ## random histories -/
 
@@ -355,12 +422,21 @@ def corpus : List Case :=
       [.upd 0 (.lit 0), .obs 0 1 .cur [] .E, .obs 0 2 .cur [] .F, .obs 0 3 .cur [.ok, .ok, .err] .N]
       [[.upd 1 (.plus 1), .cancel 1 1, .upd 1 (.plus 2), .obs 1 4 .fail [] .L],
        [.upd 2 .fail, .cancel 2 1, .upd 2 (.plus 3), .obs 2 5 .cur [.panic] .E],
-       [.obs 3 6 .cur [] .E, .upd 3 (.plus 1), .upd 3 (.plus 1)]] ]
+       [.obs 3 6 .cur [] .E, .upd 3 (.plus 1), .upd 3 (.plus 1)]],
+    -- two concurrent `$ + 1`: both acknowledged, the counter must end at 2 (a lost update ends at 1)
+    mkRace "C17-corpus-8" "corpus-race" [.upd 0 (.lit 0), .obs 0 1 .cur [] .C]
+      [[.upd 1 (.plus 1), .upd 2 (.plus 1)], [.upd 1 (.plus 1), .upd 2 (.plus 1)]],
+    -- non-commutative mix: the log must be the chain of one of the possible orders
+    mkRace "C17-corpus-9" "corpus-race" [.upd 0 (.lit 1), .obs 0 1 .cur [] .C]
+      [[.upd 1 (.plus 1), .upd 2 .dbl, .upd 3 (.plus 3)], [.upd 1 .dbl, .upd 2 (.plus 2), .upd 3 (.lit 5)]] ]
 
 def gen (seed n : Nat) (thorough : Bool) : List Case := Id.run do
   let mut out : List Case := []
   for i in [0:n] do
-    if thorough && i % 6 == 5 then
+    if i % 8 == 7 then
+      let ((pre, rounds), _) := genRace.run (seedOf seed (1700000 + i))
+      out := mkRace s!"C17-{i}" s!"race/{(rounds.headD []).length}x{rounds.length}" pre rounds :: out
+    else if (thorough && i % 6 == 5) || (!thorough && i % 8 == 3) then
       let ((pre, clients), _) := genPar.run (seedOf seed (1700000 + i))
       out := mkPar s!"C17-{i}" s!"par/{clients.length}" pre clients :: out
     else
